@@ -1,6 +1,6 @@
 //! Scenarios: duplicate-packets mode (C16), cleanup of failed uploads (C13), isolation (C12),
 //! bundled client vs server (C14), block-number wrap-around (C15).
-use crate::common::{boot_server, content, Sandbox, ServerCfg};
+use crate::common::{boot_server, content, content_with_zero_runs, Sandbox, ServerCfg};
 use crate::more_mon::{ClientSpec, CsMon, CsResult, DupMon, FsMon, IsoMon, StaticMon, UploadSpec};
 use crate::peers::{Adv, Reader, Scripted, Target, Writer, XferCfg};
 use crate::rfc::{self, Pkt};
@@ -106,7 +106,7 @@ fn client_server(d: &Draw, w: &Arc<World>, sandbox: &Sandbox, prop: &'static str
     // names
     let nested = d.range("swarm.path.style", 4);
     let base = "file.bin";
-    let data = Arc::new(content(len, 21));
+    let data = Arc::new(if d.chance("swarm.content.zero_runs", 1, 8) { content_with_zero_runs(len, 21, b) } else { content(len, 21) });
     let (file_arg, server_path, client_path);
     if upload {
         // source file on the client side; stored under its basename in the server's receive directory
@@ -350,6 +350,15 @@ pub fn cleanup(tier: Tier, w: &Arc<World>) -> Scn {
     let mut srv = ServerCfg::new(&dir);
     srv.single_port = d.chance("swarm.single_port", 1, 3);
     srv.keep_on_error = d.chance("swarm.keep_on_error", 1, 3);
+    srv.arg_rot = d.range("swarm.arg_rotation", 8) as usize;
+    if d.chance("swarm.flag.duplicate_packets", 1, 8) {
+        srv.dup = Some("1".into());
+    }
+    if d.chance("swarm.distinct_dirs", 1, 4) {
+        srv.send_dir = Some(sandbox.dir("pub"));
+        srv.recv_dir = Some(dir.clone());
+        srv.dir = sandbox.dir("base");
+    }
     let mode = d.weighted("swarm.c13.mode", &[5, 3, 2]);
     let oc = draw_options(&d, false, None);
     let max_blocks = if tier == Tier::Thorough { 40 } else { 24 };
@@ -469,6 +478,9 @@ pub fn isolation(tier: Tier, w: &Arc<World>) -> Scn {
     srv.keep_on_error = d.chance("swarm.flag.keep_on_error", 1, 6);
     srv.overwrite = d.chance("swarm.flag.overwrite", 1, 4);
     srv.arg_rot = d.range("swarm.arg_rotation", 8) as usize;
+    if d.chance("swarm.flag.duplicate_packets", 1, 8) {
+        srv.dup = Some("1".into());
+    }
     let kmax = if tier == Tier::Thorough { 15 } else { 7 };
     let k = 2 + d.range("swarm.clients", kmax) as usize;
     let mut fc = FaultCfg::default();
@@ -486,7 +498,7 @@ pub fn isolation(tier: Tier, w: &Arc<World>) -> Scn {
         let upload = d.chance("swarm.kind.upload", 1, 2);
         let oc = draw_options(&d, true, None);
         let len = draw_len(&d, oc.b, oc.w, 24, 1 << 18);
-        let data = Arc::new(content(len, 200 + i as u64));
+        let data = Arc::new(if d.chance("swarm.content.zero_runs", 1, 10) { content_with_zero_runs(len, 200 + i as u64, oc.b) } else { content(len, 200 + i as u64) });
         let name = format!("{}{i}.bin", if upload { "u" } else { "f" });
         let path = dir.join(&name);
         if !upload {
